@@ -286,12 +286,16 @@ def write_replay(pid, payload):
 
 
 def load_known_findings(pid):
-    p = os.path.join(ROOT, "known_findings.json")
-    if not os.path.exists(p):
-        return []
-    with open(p) as fh:
-        data = json.load(fh)
-    return [e for e in data.get("findings", []) if e.get("property") == pid]
+    out = []
+    # known_findings.json (shared) plus findings/<pid>.json (per property); both are committed
+    # files and neither is ever written at run time
+    for p in (os.path.join(ROOT, "known_findings.json"), os.path.join(ROOT, "findings", f"{pid}.json")):
+        if not os.path.exists(p):
+            continue
+        with open(p) as fh:
+            data = json.load(fh)
+        out += [e for e in data.get("findings", []) if e.get("property") == pid]
+    return out
 
 
 def write_evidence(pid, ev):
